@@ -129,7 +129,7 @@ func propSpecs() map[string]*PropSpec {
 				return strings.Contains(o.Name, "C09:") || strings.Contains(o.Name, "format-error-exit")
 			},
 			Standin:    []string{"panic", "reparse", "tokens", "comments", "error-path", "outputs"},
-			Extra:      func(e *Engine) []*Obligation { return e.coverObligations() },
+			Extra:      func(e *Engine) []*Obligation { return append(e.coverObligations(), e.printObligations(10*time.Second)...) },
 			Decided:    []string{"on a syntax error FormatPacketDsl returns its input unchanged together with an error (postcondition, all inputs)", "format -f / -d: on a formatter error exit status 1 and no file-system effect (exits clause, all inputs)", "COVER: every content element of every grammar rule (sub-rule, token with variable text, optional or repeated keyword) is read by some formatter function or printed generically with an enclosing rule - a necessary condition for retaining it; derived from the grammar, decided on the SSA"},
 			Bounded:    []string{"BOUNDED (not counted as proved): on an enumerated corpus of grammar-derived sentences with comments at token boundaries, key lists of length 1..16 and fault templates, the real formatter's result re-parses, keeps the default-channel token sequence (optional ',' ';' ignored) and the comment sequence, and where the input compiles the formatted text compiles to byte-identical file sets for all six targets"},
 			OutOfReach: []string{"token / comment preservation and output equality for all inputs (COVER obligations are not built in this revision)"}},
